@@ -17,9 +17,10 @@ const (
 	Small              // <= ~400 bytes
 	Medium             // 4-10 KiB, crosses the 4096-byte bufio buffer
 	Large              // 70-200 KiB, crosses bufio.Scanner's 64 KiB token limit
+	Multi              // many short records (3-15), for stop-position and record-boundary coverage
 )
 
-func (s Size) String() string { return [...]string{"tiny", "small", "medium", "large"}[s] }
+func (s Size) String() string { return [...]string{"tiny", "small", "medium", "large", "multi"}[s] }
 
 // Doc is a well-formed text as a list of content lines (no terminators inside).
 type Doc struct {
@@ -56,6 +57,8 @@ func budget(r *core.Rng, sz Size) int {
 		return r.Range(0, 300)
 	case Medium:
 		return r.Range(4200, 10000)
+	case Multi:
+		return r.Range(0, 150)
 	default:
 		return r.Range(70000, 200000)
 	}
@@ -69,6 +72,8 @@ func nrec(r *core.Rng, sz Size) int {
 		return r.Range(0, 5)
 	case Medium:
 		return r.Range(1, 30)
+	case Multi:
+		return r.Range(3, 15)
 	default:
 		return r.Range(1, 6)
 	}
@@ -323,6 +328,8 @@ func genNewick(r *core.Rng, sz Size) Doc {
 	switch sz {
 	case Tiny:
 		depth = 1
+	case Multi:
+		depth = 2
 	case Medium:
 		n = r.Range(150, 400)
 		depth = 5
